@@ -980,6 +980,9 @@ class TLSRecordLayer(object):
 
     def _sendMsg(self, msg, randomizeFirstBlock=True, update_hashes=True):
         """Fragment and send message through socket"""
+        # a read may shut the connection down while a multi-record write is
+        # waiting for the socket: the write keys are gone by then
+        was_open = not self.closed
         #Whenever we're connected and asked to send an app data message,
         #we first send the first byte of the message.  This prevents
         #an attacker from launching a chosen-plaintext attack based on
@@ -992,6 +995,9 @@ class TLSRecordLayer(object):
                 yield result
             if len(msg.write()) == 0:
                 return
+            if was_open and self.closed:
+                raise TLSClosedConnectionError(
+                    "connection was closed while the write was in progress")
         buf = msg.write()
 
         contentType = msg.contentType
@@ -1007,6 +1013,10 @@ class TLSRecordLayer(object):
             msgFragment = Message(contentType, newB)
             for result in self._sendMsgThroughSocket(msgFragment):
                 yield result
+
+            if was_open and self.closed:
+                raise TLSClosedConnectionError(
+                    "connection was closed while the write was in progress")
 
         msgFragment = Message(contentType, buf)
         for result in self._sendMsgThroughSocket(msgFragment):
